@@ -527,6 +527,14 @@ namespace Pistache::Tcp
 
     void Transport::handleTimer(TimerEntry entry)
     {
+        if (!entry.isActive())
+        {
+            // The timer was disarmed: whoever armed it is gone and will not close
+            // the descriptor, so release it here.
+            ::close(entry.fd);
+            return;
+        }
+
         if (entry.isActive())
         {
             uint64_t numWakeups;
